@@ -424,6 +424,7 @@ class Check:
             return self._execute(binp, workdir, t0)
         finally:
             shutil.rmtree(workdir, ignore_errors=True)
+            shutil.rmtree(os.path.join(os.environ.get("HWSIM_SCRATCH", "/dev/shm"), "hwsim.%d.snapmaster" % os.getpid()), ignore_errors=True)
             for d in glob.glob(os.path.join(os.environ.get("HWSIM_SCRATCH", "/dev/shm"), "hwsim.*")):
                 # scratch dirs of workers that were killed
                 try:
@@ -500,6 +501,21 @@ class Check:
                 if r2.viol and seed in by_seed:
                     results[by_seed[seed]] = r2
             for wk in wkl.values():
+                wk.stop()
+
+        # ---------------- workers killed from outside (SIGKILL: OOM killer, operator) say nothing about the run: once more, alone
+        killed = [i for i in sorted(results) if (results[i].viol or "").startswith("signal:9")]
+        if killed:
+            self.log("%d runs ended with SIGKILL (not raised by the system under test): re-running them individually" % len(killed))
+            wkk = {}
+            for i in killed[:64]:
+                seed = results[i].seed
+                pclass = seed % ncls
+                wk = wkk.get(pclass)
+                if wk is None or wk.proc is None:
+                    wk = wkk[pclass] = Worker(binp, pclass, 8500 + pclass, workdir, self.env_extra)
+                results[i] = wk.run_one(seed, self.prop, self.tier, timeout=self.run_timeout)
+            for wk in wkk.values():
                 wk.stop()
 
         # ---------------- determinism gate: first D completed seeds again, in other worker processes, other ids
@@ -590,6 +606,18 @@ class Check:
                 f.write(small)
             new_violations.append((cls, r.seed, rp, r.detail, len(rs)))
             fresh_seen.add(cls)
+        # ---------------- regression plans: minimised histories of defects that were repaired (fix: commits); they must stay clean
+        regress_n = 0
+        for path in sorted(glob.glob(os.path.join(VERIF, "regress", self.prop + "-*.plan"))):
+            c = replay_plan(binp, open(path).read(), workdir, env_extra=self.env_extra)
+            regress_n += 1
+            if c[0] and c[0] not in fresh_seen:
+                kf = next((k for k in known if k[0] == self.prop and k[1].search(c[0])), None)
+                if kf:
+                    known_hits.setdefault(c[0], (kf[2], 1))
+                else:
+                    fresh_seen.add(c[0])
+                    new_violations.append((c[0], 0, path, "regression plan violates again: " + c[1], 1))
         for cls, (what, n) in sorted(known_hits.items()):
             print("KNOWN-FINDING: property=%s %s [class %s, %d runs]" % (self.prop, what, cls, n))
         for cls, seed, rp, detail, n in new_violations:
@@ -646,6 +674,7 @@ class Check:
             "known_findings_matched": {c: n for c, (w, n) in known_hits.items()},
             "real_components": self.real_components,
             "stubbed_components": self.stubbed_components,
+            "regression_plans_replayed": regress_n,
             "workers": self.workers,
             "planned_runs": self.max_runs if self.max_runs < 10 ** 9 else None,
             "index_range": "run i uses run_seed(VERIF_SEED, machine, i), i = 0..planned_runs-1; verdict is a function of (VERIF_SEED, tier, tree)",
@@ -695,3 +724,4 @@ def replay_file(path, verbose=True):
         return 0
     finally:
         shutil.rmtree(workdir, ignore_errors=True)
+        shutil.rmtree(os.path.join(os.environ.get("HWSIM_SCRATCH", "/dev/shm"), "hwsim.%d.snapmaster" % os.getpid()), ignore_errors=True)
